@@ -302,7 +302,7 @@ theorem newObject_wf {t : ObjectTree} (w : WF t) (opcode info th : Nat)
 
 /-! ### every child is in its parent's child list -/
 
-theorem chain_succ_mem {t : ObjectTree} (hs : t.pool.size ≤ INV) :
+theorem chain_succ_mem {t : ObjectTree} (_hs : t.pool.size ≤ INV) :
     ∀ (l : List Nat) (a j : Nat), Chain t (Nx t) a l → j ∈ l → Nx t j ≠ INV → Nx t j ∈ l := by
   intro l
   induction l with
@@ -350,5 +350,80 @@ theorem WF.child_mem {t : ObjectTree} (w : WF t) {p : Nat} {l : List Nat} (hc : 
       have hmem := ih (Pv t i) (by omega) hj (by rw [(lp.pv hpv).2, hp]) hpn
       have := chain_succ_mem w.size_le l _ _ hc hmem hne
       rwa [(lp.pv hpv).1] at this
+
+/-! ### the forest's derived parent is the pool's parent link -/
+
+theorem find?_unique {α : Type} (q : α → Bool) (x : α) :
+    ∀ (l : List α), x ∈ l → q x = true → (∀ y ∈ l, q y = true → y = x) → l.find? q = some x := by
+  intro l
+  induction l with
+  | nil => intro h; simp at h
+  | cons a l ih =>
+    intro hx hq hu
+    by_cases ha : q a = true
+    · have := hu a (by simp) ha
+      subst this
+      simp [List.find?, ha]
+    · have hax : x ≠ a := fun e => ha (e ▸ hq)
+      simp only [List.find?, ha]
+      have hx' : x ∈ l := by
+        rcases List.mem_cons.1 hx with e | e
+        · exact absurd e hax
+        · exact e
+      exact ih hx' hq (fun y hy => hu y (List.mem_cons_of_mem _ hy))
+
+theorem WF.kids_mem {t : ObjectTree} (w : WF t) (p : Nat) (hl : live t p = true) (k : Nat) :
+    k ∈ (abs t).kids p ↔ (live t k = true ∧ P t k = p) := by
+  obtain ⟨l, hc, ha, _⟩ := w.args_eq hl
+  have hk : (abs t).kids p = l := by simp [abs, ha]
+  rw [hk]
+  constructor
+  · exact w.chain_parent l (Fi t p) p hc (fun hne => ((w.localP hl).2.2.2.2.2.1 hne).1) k
+  · rintro ⟨hlk, hp⟩
+    obtain ⟨pos, hpos⟩ := w.order
+    exact w.child_mem hc pos hpos (pos k) k (Nat.le_refl _) hlk hp (live_ne_INV w.size_le hl)
+
+theorem mem_ids {t : ObjectTree} (p : Nat) : p ∈ (abs t).ids ↔ live t p = true := by
+  simp only [abs, List.mem_filter, List.mem_range]
+  exact ⟨fun h => h.2, fun h => ⟨live_lt h, h⟩⟩
+
+/-- `parentOf` on the abstracted forest (a search through the child lists) is the parent link -/
+theorem WF.parentOf_abs {t : ObjectTree} (w : WF t) (i : Nat) (hl : live t i = true) :
+    (abs t).parentOf i = if P t i = INV then none else some (P t i) := by
+  unfold Forest.parentOf
+  by_cases hp : P t i = INV
+  · simp only [hp, if_true, List.find?_eq_none]
+    intro p hpm hc
+    have hpl := (mem_ids p).1 hpm
+    have := (w.kids_mem p hpl i).1 (by simpa using hc)
+    have hne := live_ne_INV w.size_le hpl
+    rw [hp] at this
+    exact hne this.2.symm
+  · simp only [hp, if_false]
+    have hpl : live t (P t i) = true := (w.links hl).1.resolve_left hp
+    apply find?_unique
+    · exact (mem_ids _).2 hpl
+    · simpa using (w.kids_mem _ hpl i).2 ⟨hl, rfl⟩
+    · intro y hy hc
+      have := (w.kids_mem y ((mem_ids y).1 hy) i).1 (by simpa using hc)
+      exact this.2.symm
+
+/-- the `'^'` loop on `k` carets is `climb` -/
+theorem WF.findCarets_climb {t : ObjectTree} (w : WF t) :
+    ∀ (k scope : Nat), live t scope = true →
+      t.findCarets scope (List.replicate k 0x5e) = .ok (optIdx ((abs t).climb k scope)) := by
+  intro k
+  induction k with
+  | zero => intro scope _; rfl
+  | succ k ih =>
+    intro scope hl
+    simp only [List.replicate_succ, findCarets, if_true, objectAt_live hl, deref_some, obj_eq (live_lt hl),
+      bind, Except.bind, Forest.climb, w.parentOf_abs scope hl]
+    by_cases hp : P t scope = INV
+    · have : (slot t scope).parentIndex = InvalidIndex := hp
+      simp [this, hp, optIdx, INV, pure, Except.pure]
+    · have hp' : ¬ (slot t scope).parentIndex = InvalidIndex := hp
+      simp only [hp', if_false, hp, Option.bind]
+      exact ih _ ((w.links hl).1.resolve_left hp)
 
 end Firefly.C13
